@@ -931,6 +931,51 @@ func (m *Machine) callBuiltin(caller *frame, callInstr ssa.CallInstruction, fn *
 
 	case "ssa:deferstack":
 		return &caller.defers
+
+	// unsafe builtins, supported only in the shapes the standard library
+	// uses for zero-copy string/slice conversion
+	case "SliceData":
+		s, _ := args[0].([]value)
+		return &sliceData{s: s}
+	case "StringData":
+		return &sliceData{str: args[0]}
+	case "String":
+		n := int(m.concInt(args[1], "unsafe.String len"))
+		switch p := args[0].(type) {
+		case *sliceData:
+			if p.str != nil {
+				return m.sliceStr(p.str, n)
+			}
+			b := make([]*Term, n)
+			for i := 0; i < n; i++ {
+				b[i] = p.s[i].(*Term)
+			}
+			return normStr(&SymString{b})
+		case *value:
+			if p == nil && n == 0 {
+				return ""
+			}
+		}
+		m.unsupported("unsafe.String on an arbitrary pointer")
+	case "Slice":
+		n := int(m.concInt(args[1], "unsafe.Slice len"))
+		switch p := args[0].(type) {
+		case *sliceData:
+			if p.str != nil {
+				bs := m.byteSeq(p.str)
+				out := make([]value, n)
+				for i := 0; i < n; i++ {
+					out[i] = bs[i]
+				}
+				return out
+			}
+			return p.s[:n:n]
+		case *value:
+			if p == nil && n == 0 {
+				return []value(nil)
+			}
+		}
+		m.unsupported("unsafe.Slice on an arbitrary pointer")
 	}
 	panic("unknown built-in: " + fn.Name())
 }
